@@ -379,10 +379,7 @@ class ICvi(Subject):
         return {"cls": "iCVIFuzzyART", **p, "validity": 1, "offline": r.random() < 0.5, "_d": d}
 
     def spec_like(self, r, spec):
-        # `offline` is a constructor argument that get_params does not expose (reported under (a));
-        # it is kept equal here so that (c) measures set_params on the exposed parameters only
-        s = self.spec(r, spec["_d"])
-        s["offline"] = spec["offline"]
+        # `offline` is exposed by get_params since /repo 9f458f8, so it varies like any other parameter
         return s
 
     def data(self, r, spec, n):
@@ -791,10 +788,11 @@ def chk_d_reject(c: Case):
             c.violation(f"{S.cls}.set_params:unknown-name-changes-params", f"set_params({name}=1.0) raised but changed parameters", {"spec": spec})
     # ---- out-of-range values for every leaf that an elementary class range-checks
     leaves = [k for k, v in gp.items() if not hasattr(v, "get_params")]
-    # observation only, NOT a violation (sklearn's own BaseEstimator.set_params does the same, and the
-    # statement only asks that the unknown name be rejected): names that precede an unknown name in the
-    # same call stay assigned although the call raised.  The Lean model mirrors it
-    # (Art.C19.set_unknown_after_known_stays_counterexample) and the tie compares it on the elementary classes.
+    # observation only, NOT a violation of the statement (sklearn's own BaseEstimator.set_params assigns
+    # the names that precede an unknown name, and the statement only asks that the unknown name be
+    # rejected).  Since /repo 41ad083 BaseART.set_params rolls nothing in before the whole call is
+    # accepted; the Lean model proves it (Art.C19.set_rejection_leaves_state) and the tie compares the
+    # store after every failed call on the elementary classes, so a regression shows up there as a diff.
     other = c.build(S.spec_like(r, spec), "d")
     if other is not None and S.cls in specs.ELEM:
         with quiet():
@@ -819,6 +817,18 @@ def chk_d_reject(c: Case):
         if bad is None:
             continue
         _try_bad(c, est, spec, path, bad)
+    # observation only: a wrapper's plain name in the same call as a nested value that the nested module
+    # rejects — the nested routing runs after the plain names were assigned (model:
+    # Art.C19.set_nested_attr_error_after_assign_counterexample shows the same order for AttributeError)
+    if S.cls == "DualVigilanceART":
+        old_lb = gp["rho_lower_bound"]
+        new_lb = old_lb / 2 if old_lb > 0 else gp["base_module__rho"] / 2
+        o = outcome(lambda: est.set_params(rho_lower_bound=new_lb, base_module__rho=7.0))
+        with quiet():
+            now = est.get_params()["rho_lower_bound"]
+        if o[0] == "exc":
+            c.ctx.cov.hit("d:observed:plain-name-with-rejected-nested-value-" + ("stays-assigned" if now == new_lb else "rolled-back"))
+        outcome(lambda: est.set_params(rho_lower_bound=old_lb))
     # ---- the wrappers' own parameters
     own = {"TopoART": ("beta_lower", 7.0), "DualVigilanceART": ("rho_lower_bound", -1.0),
            "FusionART": ("gamma_values", [0.75, 0.75, 0.75][: len(spec.get("modules", [0, 0]))]),
